@@ -1235,6 +1235,322 @@ def translate_components(cls):
     return out
 
 
+# =========================================================================== rebuildUtilityRegistryFromLocalCache
+
+COUNTERS = ["needed_registered", "did_not_register", "needed_subscribed", "did_not_subscribe"]
+
+
+def _name(n, ident=None):
+    return isinstance(n, ast.Name) and (ident is None or n.id == ident)
+
+
+def _attr_of(n, obj, attr):
+    return isinstance(n, ast.Attribute) and _name(n.value, obj) and n.attr == attr
+
+
+def _assign1(s):
+    if isinstance(s, ast.Assign) and len(s.targets) == 1:
+        return s.targets[0], s.value
+    return None, None
+
+
+def translate_rebuild(fn):
+    """The emergency repair method.  Accepted shape (anything else is refused):
+         regs = dict(self._utility_registrations); utils = self.utilities; four counters = 0;
+         assert 'changed' not in utils.__dict__; utils.changed = lambda _: None        (suppress changed())
+         if rebuild: register = utils.register; subscribe = utils.subscribe
+         else:       register = subscribe = lambda *args: None
+         try:   for (provided, name), (value, _, _) in regs.items(): <ifs over utils / counters>
+         finally: del utils.changed; if rebuild and (<counter> or <counter>): utils.changed(utils)
+         return {<the four counters>}
+       The suppressed-changed protocol becomes Model.set_gen (generation restored; bumped once if the
+       final changed() runs)."""
+    _plain_args(fn, ["self", "rebuild"])
+    _check_defaults(fn, {"rebuild": False})
+    b = _docless(fn.body)
+    if len(b) != 11:
+        _fail(fn, "unexpected number of statements in rebuildUtilityRegistryFromLocalCache")
+    t, v = _assign1(b[0])
+    if not (_name(t, "regs") and isinstance(v, ast.Call) and _name(v.func, "dict") and len(v.args) == 1
+            and not v.keywords and _is_self_attr(v.args[0], "_utility_registrations")):
+        _fail(b[0], "expected regs = dict(self._utility_registrations)")
+    t, v = _assign1(b[1])
+    if not (_name(t, "utils") and _is_self_attr(v, "utilities")):
+        _fail(b[1], "expected utils = self.utilities")
+    for s_, c in zip(b[2:6], COUNTERS):
+        t, v = _assign1(s_)
+        if not (_name(t, c) and _const(v, 0)):
+            _fail(s_, "expected %s = 0" % c)
+    a = b[6]
+    if not (isinstance(a, ast.Assert) and isinstance(a.test, ast.Compare) and len(a.test.ops) == 1
+            and isinstance(a.test.ops[0], ast.NotIn) and _const(a.test.left, "changed")
+            and _attr_of(a.test.comparators[0], "utils", "__dict__")):
+        _fail(a, "expected assert 'changed' not in utils.__dict__")
+    t, v = _assign1(b[7])
+
+    def noop_lambda(l, star):
+        if not isinstance(l, ast.Lambda) or not _is_none(l.body):
+            return False
+        ar = l.args
+        if star:
+            return ar.vararg is not None and not ar.args and not ar.kwonlyargs and ar.kwarg is None
+        return len(ar.args) == 1 and ar.vararg is None and not ar.kwonlyargs and ar.kwarg is None
+    if not (_attr_of(t, "utils", "changed") and noop_lambda(v, False)):
+        _fail(b[7], "expected utils.changed = lambda _: None")
+    i = b[8]
+    ok = isinstance(i, ast.If) and _name(i.test, "rebuild") and len(i.body) == 2 and len(i.orelse) == 1
+    if ok:
+        (t1, v1), (t2, v2) = _assign1(i.body[0]), _assign1(i.body[1])
+        ok = (_name(t1, "register") and _attr_of(v1, "utils", "register")
+              and _name(t2, "subscribe") and _attr_of(v2, "utils", "subscribe"))
+        e = i.orelse[0]
+        ok = ok and (isinstance(e, ast.Assign) and len(e.targets) == 2 and _name(e.targets[0], "register")
+                     and _name(e.targets[1], "subscribe") and noop_lambda(e.value, True))
+    if not ok:
+        _fail(i, "expected the rebuild / no-op binding of register and subscribe")
+    tr = b[9]
+    if not (isinstance(tr, ast.Try) and not tr.handlers and not tr.orelse and len(tr.body) == 1
+            and isinstance(tr.body[0], ast.For) and not tr.body[0].orelse and len(tr.finalbody) == 2):
+        _fail(tr, "expected try: for ...: finally: ...")
+    loop = tr.body[0]
+    it = loop.iter
+    if not (isinstance(it, ast.Call) and not it.args and not it.keywords and isinstance(it.func, ast.Attribute)
+            and it.func.attr == "items" and _name(it.func.value, "regs")):
+        _fail(it, "expected regs.items()")
+    tg = loop.target
+    ok = (isinstance(tg, ast.Tuple) and len(tg.elts) == 2 and isinstance(tg.elts[0], ast.Tuple)
+          and isinstance(tg.elts[1], ast.Tuple) and len(tg.elts[0].elts) == 2 and len(tg.elts[1].elts) == 3
+          and all(isinstance(e, ast.Name) for e in tg.elts[0].elts + tg.elts[1].elts))
+    if not ok:
+        _fail(tg, "expected (provided, name), (value, _info, _factory)")
+    pv, nm = [e.id for e in tg.elts[0].elts]
+    val, x1, x2 = [e.id for e in tg.elts[1].elts]
+    if len({pv, nm, val, x1, x2} | set(COUNTERS) | {"utils", "register", "subscribe", "regs"}) != 13:
+        _fail(tg, "loop variables clash")
+    fin = tr.finalbody
+    d = fin[0]
+    if not (isinstance(d, ast.Delete) and len(d.targets) == 1 and _attr_of(d.targets[0], "utils", "changed")):
+        _fail(d, "expected del utils.changed")
+    f2 = fin[1]
+    ok = (isinstance(f2, ast.If) and not f2.orelse and len(f2.body) == 1 and isinstance(f2.test, ast.BoolOp)
+          and isinstance(f2.test.op, ast.And) and len(f2.test.values) == 2 and _name(f2.test.values[0], "rebuild")
+          and isinstance(f2.test.values[1], ast.BoolOp) and isinstance(f2.test.values[1].op, ast.Or)
+          and all(_name(x) and x.id in COUNTERS for x in f2.test.values[1].values))
+    if ok:
+        c_ = f2.body[0]
+        ok = (isinstance(c_, ast.Expr) and isinstance(c_.value, ast.Call) and _attr_of(c_.value.func, "utils", "changed")
+              and len(c_.value.args) == 1 and _name(c_.value.args[0], "utils") and not c_.value.keywords)
+    if not ok:
+        _fail(f2, "expected if rebuild and (<counter> or <counter>): utils.changed(utils)")
+    final_cond = " || ".join("negb (Nat.eqb %s 0)" % x.id for x in f2.test.values[1].values)
+    r = b[10]
+    ok = (isinstance(r, ast.Return) and isinstance(r.value, ast.Dict) and len(r.value.keys) == 4
+          and all(_const(k, c) and _name(v_, c) for k, v_, c in zip(r.value.keys, r.value.values, COUNTERS)))
+    if not ok:
+        _fail(r, "expected the dictionary of the four counters")
+
+    # ---- the loop body: ifs over utils.registered / utils.subscribed, register / subscribe calls, counters
+    state = "(utils, (%s))" % ", ".join(COUNTERS)
+
+    def args_after_unit(call, n):
+        if call.keywords or len(call.args) != n or not _empty_tuple(call.args[0]):
+            _fail(call, "expected a call with () as first argument and %d arguments" % n)
+        for a_ in call.args[1:]:
+            if not (_name(a_) and a_.id in (pv, nm, val)):
+                _fail(a_, "expected a loop variable")
+        return [a_.id for a_ in call.args[1:]]
+
+    def test(t_):
+        if not (isinstance(t_, ast.Compare) and len(t_.ops) == 1 and isinstance(t_.left, ast.Call)):
+            _fail(t_, "unsupported test in the repair loop")
+        c_, op, rhs = t_.left, t_.ops[0], t_.comparators[0]
+        if _attr_of(c_.func, "utils", "registered") and isinstance(op, ast.NotEq) and _name(rhs, val):
+            a_ = args_after_unit(c_, 3)
+            if a_ != [pv, nm]:
+                _fail(c_, "expected utils.registered((), provided, name)")
+            return ("match registered utils [] %s %s with Some v_ => negb (v_eq v_ %s) | None => true end" % (pv, nm, val))
+        if _attr_of(c_.func, "utils", "subscribed") and isinstance(op, ast.Is) and _is_none(rhs):
+            a_ = args_after_unit(c_, 3)
+            if a_ != [pv, val]:
+                _fail(c_, "expected utils.subscribed((), provided, value)")
+            return "negb (subscribed utils [] (Some %s) %s)" % (pv, val)
+        _fail(t_, "unsupported test in the repair loop")
+
+    def stmts(ss):
+        out = ""
+        for s_ in ss:
+            if isinstance(s_, ast.AugAssign) and isinstance(s_.op, ast.Add) and _const(s_.value, 1) \
+                    and _name(s_.target) and s_.target.id in COUNTERS:
+                out += "let %s := S %s in " % (s_.target.id, s_.target.id)
+            elif isinstance(s_, ast.Expr) and isinstance(s_.value, ast.Call) and _name(s_.value.func, "register"):
+                a_ = args_after_unit(s_.value, 4)
+                if a_ != [pv, nm, val]:
+                    _fail(s_, "expected register((), provided, name, value)")
+                out += "let utils := if rebuild then register W utils [] %s %s (Some %s) else utils in " % (pv, nm, val)
+            elif isinstance(s_, ast.Expr) and isinstance(s_.value, ast.Call) and _name(s_.value.func, "subscribe"):
+                a_ = args_after_unit(s_.value, 3)
+                if a_ != [pv, val]:
+                    _fail(s_, "expected subscribe((), provided, value)")
+                out += "let utils := if rebuild then subscribe W utils [] (Some %s) %s else utils in " % (pv, val)
+            else:
+                _fail(s_, "unsupported statement in the repair loop")
+        return out + state
+    body = ""
+    for s_ in loop.body:
+        if not isinstance(s_, ast.If):
+            _fail(s_, "expected an if statement in the repair loop")
+        body += "      let '%s :=\n        if %s\n        then %s\n        else %s in\n" % (
+            state, test(s_.test), stmts(s_.body), stmts(s_.orelse))
+    return [
+        "Definition g_rebuildUtilityRegistry (rebuild : bool) (st : cstate) : cstate * (nat * nat * nat * nat) :=",
+        "  let '%s :=" % state,
+        "    fold_left (fun acc_ kv_ =>",
+        "      let '%s := acc_ in" % state,
+        "      let '((%s, %s), (%s, %s, %s)) := kv_ in" % (pv, nm, val, x1, x2),
+        body + "      %s)" % state,
+        "      (c_ureg st) (c_utils st, (0, 0, 0, 0)) in",
+        "  let g0_ := generation (c_utils st) in",
+        "  let utils := set_gen utils (if rebuild && (%s) then S g0_ else g0_) in" % final_cond,
+        "  (with_utils st utils, (%s))." % ", ".join(COUNTERS), ""]
+
+
+# =========================================================================== the query methods
+
+def _ret_call(fn, registry, method, nargs):
+    """return self.<registry>.<method>(args) -> args"""
+    b = _docless(fn.body)
+    if len(b) != 1:
+        _fail(fn, "expected a single statement")
+    s_ = b[0]
+    v = s_.value if isinstance(s_, (ast.Return, ast.Expr)) else None
+    if isinstance(v, ast.YieldFrom):
+        v = v.value
+    if not (isinstance(v, ast.Call) and not v.keywords and isinstance(v.func, ast.Attribute) and v.func.attr == method
+            and _is_self_attr(v.func.value, registry) and len(v.args) == nargs):
+        _fail(fn, "expected self.%s.%s(...) with %d arguments" % (registry, method, nargs))
+    return s_, v.args
+
+
+def _names(args, expected):
+    for a_, e in zip(args, expected):
+        if e == "()":
+            if not _empty_tuple(a_):
+                _fail(a_, "expected ()")
+        elif e == "None":
+            if not _is_none(a_):
+                _fail(a_, "expected None")
+        elif not _name(a_, e):
+            _fail(a_, "expected the parameter %s" % e)
+
+
+def translate_queries(methods):
+    out = []
+
+    def get(name, params, defaults):
+        if name not in methods:
+            raise TranslationError("method %s not found in Components" % name)
+        fn = methods[name]
+        a = fn.args
+        if a.kwarg or a.kwonlyargs or getattr(a, "posonlyargs", None) or fn.decorator_list:
+            _fail(fn, "unexpected parameter kinds")
+        if [x.arg for x in a.args] != params or (a.vararg.arg if a.vararg else None) != (
+                "objects" if name == "handle" else None):
+            _fail(fn, "unexpected parameters of %s" % name)
+        _check_defaults(fn, defaults)
+        return fn
+    fn = get("queryUtility", ["self", "provided", "name", "default"], {"name": "", "default": None})
+    s_, a = _ret_call(fn, "utilities", "lookup", 4)
+    if not isinstance(s_, ast.Return):
+        _fail(fn, "expected return")
+    _names(a, ["()", "provided", "name", "default"])
+    out += ["(* a miss returns ``default`` (None here) *)",
+            "Definition g_queryUtility (utilities : list reg) (provided : spec) (name : Adapter.name) : option value :=",
+            "  uncached_lookup W utilities [] provided name.", ""]
+    fn = get("getUtilitiesFor", ["self", "interface"], {})
+    s_, a = _ret_call(fn, "utilities", "lookupAll", 2)
+    if not (isinstance(s_, ast.Expr) and isinstance(s_.value, ast.YieldFrom)):
+        _fail(fn, "expected yield from")
+    _names(a, ["()", "interface"])
+    out += ["Definition g_getUtilitiesFor (utilities : list reg) (interface : spec) : list (Adapter.name * value) :=",
+            "  uncached_lookupAll W utilities [] interface.", ""]
+    fn = get("getAllUtilitiesRegisteredFor", ["self", "interface"], {})
+    s_, a = _ret_call(fn, "utilities", "subscriptions", 2)
+    if not isinstance(s_, ast.Return):
+        _fail(fn, "expected return")
+    _names(a, ["()", "interface"])
+    out += ["Definition g_getAllUtilitiesRegisteredFor (utilities : list reg) (interface : spec) : list value :=",
+            "  uncached_subscriptions W utilities [] (Some interface).", ""]
+    fn = get("queryAdapter", ["self", "object", "interface", "name", "default"], {"name": "", "default": None})
+    s_, a = _ret_call(fn, "adapters", "queryAdapter", 4)
+    if not isinstance(s_, ast.Return):
+        _fail(fn, "expected return")
+    _names(a, ["object", "interface", "name", "default"])
+    out += ["Definition g_queryAdapter (adapters : list reg) (object : spec * nat) (interface : spec) (name : Adapter.name)",
+            "  : option nat := reg_queryMultiAdapter W call adapters [object] interface name.", ""]
+    fn = get("queryMultiAdapter", ["self", "objects", "interface", "name", "default"], {"name": "", "default": None})
+    s_, a = _ret_call(fn, "adapters", "queryMultiAdapter", 4)
+    if not isinstance(s_, ast.Return):
+        _fail(fn, "expected return")
+    _names(a, ["objects", "interface", "name", "default"])
+    out += ["Definition g_queryMultiAdapter (adapters : list reg) (objects : list (spec * nat)) (interface : spec)",
+            "    (name : Adapter.name) : option nat := reg_queryMultiAdapter W call adapters objects interface name.", ""]
+    fn = get("subscribers", ["self", "objects", "provided"], {})
+    s_, a = _ret_call(fn, "adapters", "subscribers", 2)
+    if not isinstance(s_, ast.Return):
+        _fail(fn, "expected return")
+    _names(a, ["objects", "provided"])
+    out += ["Definition g_subscribers (adapters : list reg) (objects : list (spec * nat)) (provided : spec)",
+            "  : list nat * list value := reg_subscribers W call adapters objects (Some provided).", ""]
+    fn = get("handle", ["self"], {})
+    s_, a = _ret_call(fn, "adapters", "subscribers", 2)
+    if not isinstance(s_, ast.Expr) or isinstance(s_.value, ast.YieldFrom):
+        _fail(fn, "expected a bare call")
+    _names(a, ["objects", "None"])
+    out += ["(* the handlers called; nothing is returned *)",
+            "Definition g_handle (adapters : list reg) (objects : list (spec * nat)) : list value :=",
+            "  snd (reg_subscribers W call adapters objects None).", ""]
+    # getAdapters: for name, factory in self.adapters.lookupAll(list(map(providedBy, objects)), provided):
+    #                  adapter = factory(*objects); if adapter is not None: yield name, adapter
+    fn = get("getAdapters", ["self", "objects", "provided"], {})
+    b = _docless(fn.body)
+    ok = len(b) == 1 and isinstance(b[0], ast.For) and not b[0].orelse and _pair(b[0].target, "name", "factory")
+    if ok:
+        it = b[0].iter
+        ok = (isinstance(it, ast.Call) and not it.keywords and isinstance(it.func, ast.Attribute)
+              and it.func.attr == "lookupAll" and _is_self_attr(it.func.value, "adapters") and len(it.args) == 2
+              and _name(it.args[1], "provided"))
+        if ok:
+            l_ = it.args[0]
+            ok = (isinstance(l_, ast.Call) and _name(l_.func, "list") and len(l_.args) == 1
+                  and isinstance(l_.args[0], ast.Call) and _name(l_.args[0].func, "map") and len(l_.args[0].args) == 2
+                  and _name(l_.args[0].args[0], "providedBy") and _name(l_.args[0].args[1], "objects"))
+    if ok:
+        lb = b[0].body
+        ok = len(lb) == 2
+        if ok:
+            t, v = _assign1(lb[0])
+            ok = (_name(t, "adapter") and isinstance(v, ast.Call) and _name(v.func, "factory") and len(v.args) == 1
+                  and isinstance(v.args[0], ast.Starred) and _name(v.args[0].value, "objects") and not v.keywords)
+            i2 = lb[1]
+            ok = ok and (isinstance(i2, ast.If) and not i2.orelse and len(i2.body) == 1
+                         and isinstance(i2.test, ast.Compare) and len(i2.test.ops) == 1
+                         and isinstance(i2.test.ops[0], ast.IsNot) and _name(i2.test.left, "adapter")
+                         and _is_none(i2.test.comparators[0]) and isinstance(i2.body[0], ast.Expr)
+                         and isinstance(i2.body[0].value, ast.Yield) and _pair(i2.body[0].value.value, "name", "adapter"))
+    if not ok:
+        _fail(fn, "unexpected shape of getAdapters")
+    out += ["Definition g_getAdapters (adapters : list reg) (objects : list (spec * nat)) (provided : spec)",
+            "  : list (Adapter.name * nat) :=",
+            "  flat_map (fun nf_ => let '(name, factory) := nf_ in",
+            "                       match call factory (map snd objects) with",
+            "                       | Some adapter => [(name, adapter)]",
+            "                       | None => []",
+            "                       end)",
+            "           (uncached_lookupAll W adapters (map fst objects) provided).", ""]
+    return out
+
+
+
 def _classes(module):
     return {n.name: n for n in module.body if isinstance(n, ast.ClassDef)}
 
@@ -1257,6 +1573,8 @@ SECTION = """Section Kernel.
   Variable getName : value -> name.
   Variable getAdapterProvided : value -> option spec.
   Variable getAdapterRequired : option value -> option (list (option spec)) -> option (list spec).
+  (* what a factory / subscriber returns when called on objects (None = None) *)
+  Variable call : value -> list nat -> option nat.
 
 """
 
@@ -1289,6 +1607,14 @@ def translate_source(text, origin="registry.py"):
     lines += ["  " + l if l else l for l in translate_utility_registrations(cl["_UtilityRegistrations"])]
     lines.append("  (* ---- class Components *)")
     lines += ["  " + l if l else l for l in translate_components(cl["Components"])]
+    cm = {n.name: n for n in cl["Components"].body if isinstance(n, ast.FunctionDef)}
+    if "rebuildUtilityRegistryFromLocalCache" not in cm:
+        raise TranslationError("method rebuildUtilityRegistryFromLocalCache not found")
+    lines.append("  (* ---- Components.rebuildUtilityRegistryFromLocalCache *)")
+    lines += ["  " + l if l else l for l in translate_rebuild(cm["rebuildUtilityRegistryFromLocalCache"])]
+    lines.append("  (* ---- the query methods, over the registries of the object's base chain; objects are")
+    lines.append("     (provided-by specification, object number) *)")
+    lines += ["  " + l if l else l for l in translate_queries(cm)]
     lines.append("End Kernel.")
     lines.append("")
     return "\n".join(lines)
